@@ -33,14 +33,23 @@ fn forms_inner(c: &Case, db2: &DbDef) -> (String, String, String, String) {
         body_sql = format!("SELECT *{}", &body_sql[at..]);
     }
     let outer_sql = c.outer.sql(db2);
-    let create = if c.with_cols {
-        let cols: Vec<String> = (0..c.body.select.len()).map(|i| format!("o{}", i)).collect();
-        format!("CREATE VIEW v ({}) AS {}", cols.join(", "), body_sql)
+    // an explicit column list RENAMES the definition's columns (o<i> -> w<i>) in all three spellings
+    let n_out = c.body.select.len();
+    let wcols: Vec<String> = (0..n_out).map(|i| format!("w{}", i)).collect();
+    let (create, cte, derived_body) = if c.with_cols {
+        (
+            format!("CREATE VIEW v ({}) AS {}", wcols.join(", "), body_sql),
+            format!("WITH v ({}) AS ({}) {}", wcols.join(", "), body_sql, outer_sql),
+            format!(
+                "(SELECT {} FROM ({}) AS vb) AS v",
+                (0..n_out).map(|i| format!("vb.o{} AS w{}", i, i)).collect::<Vec<_>>().join(", "),
+                body_sql
+            ),
+        )
     } else {
-        format!("CREATE VIEW v AS {}", body_sql)
+        (format!("CREATE VIEW v AS {}", body_sql), format!("WITH v AS ({}) {}", body_sql, outer_sql), format!("({}) AS v", body_sql))
     };
-    let cte = format!("WITH v AS ({}) {}", body_sql, outer_sql);
-    let derived = replace_table_token(&outer_sql, "v", &format!("({}) AS v", body_sql));
+    let derived = replace_table_token(&outer_sql, "v", &derived_body);
     (create, outer_sql, cte, derived)
 }
 
@@ -75,7 +84,7 @@ fn with_v(c: &Case) -> DbDef {
     let mut d = c.dbd.clone();
     let cols = match c.star {
         Some(t) if !c.with_cols => c.dbd.tables[t].schema.cols.clone(),
-        _ => tys.iter().enumerate().map(|(i, t)| (format!("o{}", i), *t)).collect(),
+        _ => tys.iter().enumerate().map(|(i, t)| (format!("{}{}", if c.with_cols { "w" } else { "o" }, i), *t)).collect(),
     };
     d.tables.push(TableDef { schema: Schema { table: "v".into(), cols }, rows: vec![] });
     d
